@@ -1,7 +1,7 @@
 ---------------------------- MODULE DataMatchGen ----------------------------
 (* Enumerates the SHAPES of payload-filter queries for C04: number of conditions, elements per condition with
    direction, inversion, number of representations (raw + converter outputs), converter selector, whether an
-   expression is shared between conditions, whether a capture of the first element feeds a later element.
+   expression is shared between conditions (as their heads, or as the later element of a sequence and a single filter), whether a capture of the first element feeds a later element.
    Sequences (more than one element) are generated only where exactly one representation is searched
    (DESIGN.md, C04 scope decision). *)
 EXTENDS Integers, Sequences, FiniteSets, TLC, Json
@@ -15,12 +15,15 @@ Shapes ==
     {[conds |-> cs, nconv |-> nc, sel |-> s, share |-> sh] :
         cs \in ({<<c>> : c \in {d \in Conds : CondOK(d)}} \cup
                 {<<c1, c2>> : c1 \in {d \in Conds : CondOK(d) /\ Len(d.els) <= 2 /\ ~d.cap}, c2 \in {d \in Conds : Len(d.els) = 1}}),
-        nc \in 0 .. 2, s \in {"all", "none", "c0"}, sh \in BOOLEAN}
+        nc \in 0 .. 2, s \in {"all", "none", "c0"}, sh \in {"no", "first", "later"}}
 Searched(sh) == IF sh.sel = "all" THEN 1 + sh.nconv ELSE 1
 ShapeOK(sh) ==
     /\ sh.sel = "c0" => sh.nconv >= 1
     /\ (\E i \in DOMAIN sh.conds : Len(sh.conds[i].els) > 1) => Searched(sh) = 1
-    /\ sh.share => Len(sh.conds) = 2
+    \* "first": both conditions start with the same expression; "later": the second condition is the expression the
+    \* sequence of the first one continues with (the engine evaluates every distinct expression once per pass)
+    /\ sh.share # "no" => Len(sh.conds) = 2
+    /\ sh.share = "later" => Len(sh.conds[1].els) = 2
 
 ASSUME \A sh \in {s \in Shapes : ShapeOK(s)} :
     PrintT("@@J" \o ToJson([conds |-> [i \in DOMAIN sh.conds |-> [els |-> sh.conds[i].els, inv |-> sh.conds[i].inv, cap |-> sh.conds[i].cap]],
